@@ -148,6 +148,7 @@ type ContractFile struct {
 	DefaultStrings string
 	Errors     []string
 	Globals    []*GlobalFact
+	Preds      []*SpecFunc // heap-reading predicates, expanded in place (macros over the current state)
 }
 
 // GlobalFact: a fact about package-level variables that are assigned only by the package initialiser.
@@ -158,7 +159,7 @@ type GlobalFact struct {
 	Pkg    string
 }
 
-var topKeywords = map[string]bool{"global": true, "spec": true, "ghost": true, "invariant": true, "guarded": true, "lemma": true, "axiom": true, "extern": true, "interface": true, "func": true, "default": true}
+var topKeywords = map[string]bool{"pred": true, "global": true, "spec": true, "ghost": true, "invariant": true, "guarded": true, "lemma": true, "axiom": true, "extern": true, "interface": true, "func": true, "default": true}
 var subKeywords = map[string]bool{"assumes": true, "props": true, "model": true, "strings": true, "bytes": true, "requires": true, "ensures": true, "panics": true, "assigns": true, "pure": true, "loop": true, "at": true, "flag": true, "decreases": true, "use": true, "known": true, "hyp": true, "protects": true, "clause": true}
 
 type rawLine struct {
@@ -232,6 +233,28 @@ func ParseContractLines(pkg, path string, lines []rawLine) *ContractFile {
 			} else {
 				errf(d.loc, "bad default directive")
 			}
+		case "pred":
+			// pred name(params) = expr     (boolean; may read fields; expanded at each use in the state of the use)
+			t := strings.TrimSpace(d.text)
+			op := strings.Index(t, "(")
+			cp := matchParen(t, op)
+			eq := -1
+			if cp > 0 {
+				eq = strings.Index(t[cp:], "=")
+			}
+			if op < 0 || cp < 0 || eq < 0 {
+				errf(d.loc, "bad pred")
+				continue
+			}
+			sf := &SpecFunc{Pkg: pkg, Line: d.loc, Name: strings.TrimSpace(t[:op]), Params: parseParams(t[op+1 : cp]), Result: "bool"}
+			sf.Src = strings.TrimSpace(t[cp+eq+1:])
+			e, err := ParseExpr(sf.Src)
+			if err != nil {
+				errf(d.loc, "%v", err)
+				continue
+			}
+			sf.Body = e
+			cf.Preds = append(cf.Preds, sf)
 		case "global":
 			if c := mkClause(d.loc, d.text); c != nil {
 				gf := &GlobalFact{Clause: c, Pkg: pkg}
